@@ -66,3 +66,28 @@ pub fn sample_values(local: &mut Local, vals: &[&V]) {
         local.samples.push(to_json(v));
     }
 }
+
+/// History independence of an operation that should be pure: `op(x)` — a rendering of everything
+/// observable — must be the same whether it is the first call on this thread or follows `op` on
+/// any other item of the pool (all ordered pairs; a scratch buffer, a "last value" memo, a lossy
+/// cache or any other state surviving a call shows as a difference). Items are described by
+/// `show` for the replay file.
+pub fn history_pairs<T: Sync>(name: &str, pool: &[T], op: &(dyn Fn(&T) -> String + Sync), show: &(dyn Fn(&T) -> J + Sync)) -> Local {
+    // baseline: each item on a thread of its own (fresh thread-local state)
+    let baseline: Vec<String> = pool.iter().map(|x| std::thread::scope(|s| s.spawn(|| crate::engine::guarded(|| op(x)).unwrap_or_else(|p| format!("panic: {p}"))).join().unwrap())).collect();
+    crate::engine::par_for(pool.len(), |w, local| {
+        for (v, want) in baseline.iter().enumerate() {
+            local.evals += 1;
+            let _ = crate::engine::guarded(|| op(&pool[w]));
+            let got = crate::engine::guarded(|| op(&pool[v])).unwrap_or_else(|p| format!("panic: {p}"));
+            if got != *want {
+                local.fail(
+                    &format!("history-changes-output:{name}"),
+                    json!({"history_pair": name, "before": show(&pool[w]), "then": show(&pool[v])}),
+                    format!("{name}: after the same operation on {} the result for {} is {}, alone it is {}", show(&pool[w]), show(&pool[v]), got.chars().take(300).collect::<String>(), want.chars().take(300).collect::<String>()),
+                );
+            }
+        }
+        local.count(&format!("history-pairs:{name}"));
+    })
+}
